@@ -165,12 +165,13 @@ contract(A + "Action.__exit__", props=["C03", "C02", "C04", "C05", "C07"],
          requires=[("rep-ok", "rep_ok(self)"), ("entered", TOKEN_OK),
                    ("body-restored-context", "CTX[me] == box(self)"),
                    ("not-already-current-when-entered", "typed(self._parent_token, 'Token').tok_old != box(self)"),
-                   ("previous-ok", "implies(typed(self._parent_token, 'Token').tok_old != UNSET and typed(self._parent_token, 'Token').tok_old is not None, "
-                                   "rep_ok(typed(typed(self._parent_token, 'Token').tok_old, 'Action')))"),
-                   ("previous-typed", "typed(self._parent_token, 'Token').tok_old == UNSET or typed(self._parent_token, 'Token').tok_old is None or isinst(typed(self._parent_token, 'Token').tok_old, 'Action', True)"),
-                   ("E12-dicts-owned", "implies(typed(self._parent_token, 'Token').tok_old != UNSET and typed(self._parent_token, 'Token').tok_old is not None, "
-                    "ref(self._successFields) != ref(typed(typed(self._parent_token, 'Token').tok_old, 'Action')._identification))"),
                    ("not-finished", "not self._finished")],
+         assumes=[("E13 rely at block exit: the action that was current when the block was entered is an Action (or none) that still satisfies its "
+                   "representation invariant and owns its dicts -- application code changes actions only through the API, whose functions preserve rep_ok",
+                   "(typed(self._parent_token, 'Token').tok_old == UNSET or typed(self._parent_token, 'Token').tok_old is None or isinst(typed(self._parent_token, 'Token').tok_old, 'Action', True)) and "
+                   "implies(typed(self._parent_token, 'Token').tok_old != UNSET and typed(self._parent_token, 'Token').tok_old is not None, "
+                   "rep_ok(typed(typed(self._parent_token, 'Token').tok_old, 'Action')) and "
+                   "ref(self._successFields) != ref(typed(typed(self._parent_token, 'Token').tok_old, 'Action')._identification))")],
          modifies=LOGGING_FRAME + ["self._finished", "self._parent_token", "#CTX[me]", "field:tok_used", "dict(self._successFields)"],
          ensures=[("context-restored", "CTX[me] == old(typed(self._parent_token, 'Token').tok_old)", ["C04"]),
                   ("other-contexts-untouched", "forall(lambda c: implies(c != me, CTX[c] == old(CTX[c])), 'int')", ["C05"]),
@@ -270,3 +271,68 @@ contract(A + "log_message", props=["C02", "C04", "C05", "C01", "C07", "C08"],
                   ("positions-elsewhere", "only_changed('_last_child', curact())", ["C02"]),
                   ("context-untouched", "CTX == old(CTX)", ["C04", "C05"]),
                   ("current-ok", "cur_ok()")])
+
+# ------------------------------------------------------------------------------------------------ task ids (C06)
+contract(A + "TaskLevel.toString", props=["C06"], returns="str",
+         ensures=[("level-codec", "result == levelstr(self._level)", ["C06"])])
+
+contract(A + "TaskLevel.fromString", props=["C06"], types={"string": "str"}, returns="TaskLevel",
+         free={"L": "seq"}, assumes=[("string library axioms, instance for L", "codec_facts('', L)")],
+         ensures=[("decodes-the-level-codec", "fresh(result) and fresh(result._level) and implies(all_nat(L) and string == levelstr(L), level_of(result) == L)", ["C06"])],
+         raises=[{"cls": "ValueError", "ensures": [("only-for-non-level-strings", "implies(all_nat(L), string != levelstr(L))", ["C06"])]}])
+
+contract(A + "Action.serialize_task_id", props=["C06", "C02"], returns="bytes",
+         requires=[("rep-ok", "rep_ok(self)"), ("uuid-is-ascii-text", "is_str(uu(self)) and ascii_ok(sval(uu(self)))"),
+                   ("level-strings-are-ascii", "forall(lambda l: ascii_ok(levelstr(l)), 'seq')")],
+         modifies=["self._last_child"],
+         ensures=[("id-is-uuid-at-next-level", "result == bytes_of(sval(uu(self)) + '@' + levelstr(old(lvl(self)) + [old(pos(self)) + 1]))", ["C06"]),
+                  ("reserves-a-fresh-position", "pos(self) == old(pos(self)) + 1 and rep_ok(self)", ["C06", "C02"])])
+
+specfun("id_text", ["t"], "ite(is_bytes(t), typed(t, 'bytes_as_str'), sval(t))")
+
+contract(A + "Action.continue_task", props=["C06", "C02"],
+         types={"logger": "Opt[role:ILogger]", "task_id": "Any", "action_type": "Any", "_serializers": "Opt[_ActionSerializers]", "fields": "dict"},
+         returns="Action",
+         free={"U": "str", "L": "seq"}, assumes=[("string library axioms, instance for U, L", "codec_facts(U, L)")],
+         ghost_args={"TaskLevel.fromString#0": {"L": "L"}},
+         ghosts={"R": "seqe", "E": "ev"},
+         after={"Action._start#0": [("R", "R"), ("E", "write_ev(self._logger, fields, ite(self._serializers is None, None, typed(self._serializers, '_ActionSerializers').start))")]},
+         requires=[("current-ok", "cur_ok()"),
+                   ("id-is-bytes-or-text-or-missing", "is_bytes(task_id) or is_str(task_id) or box(task_id) == box(lookup_global('eliot/_action.py', '_TASK_ID_NOT_SUPPLIED'))")],
+         modifies=LOGGING_FRAME + ["dict(fields)"],
+         ensures=[("continues-the-same-task-at-exactly-that-position",
+                   "implies(all_nat(L) and not str_contains(U, '@') and id_text(task_id) == U + '@' + levelstr(L), uu(result) == U and lvl(result) == L)", ["C06"]),
+                  ("start-message-at-position-1", "LOG == old(LOG) + [E] + R and all_reports(R) and E.d == 'started' and seq(E.f) == lvl(result) + [1] and E.g == uu(result) "
+                   "and dget(E.b, 'action_type') == action_type", ["C06", "C02"]),
+                  ("result-started", "fresh(result) and pos(result) == 1 and rep_ok(result) and result._finished == False", ["C06"]),
+                  ("context-untouched", "CTX == old(CTX)", ["C04", "C05"])],
+         raises=[{"cls": "RuntimeError", "when": "box(task_id) == box(lookup_global('eliot/_action.py', '_TASK_ID_NOT_SUPPLIED'))", "iff": True, "ensures": []},
+                 {"cls": "Exception", "ensures": [("malformed-ids-only", "not (all_nat(L) and not str_contains(U, '@') and ascii_ok(U) and id_text(task_id) == U + '@' + levelstr(L))", ["C06"])]}])
+
+contract(A + "preserve_context", props=["C06"], types={"f": "role:UserCode"}, returns="Any",
+         requires=[("current-ok", "cur_ok()"),
+                   ("uuid-is-ascii-text", "implies(curact() is not None, is_str(uu(typed(curact(), 'Action'))) and ascii_ok(sval(uu(typed(curact(), 'Action')))))"),
+                   ("level-strings-are-ascii", "forall(lambda l: ascii_ok(levelstr(l)), 'seq')")],
+         modifies=["field:_last_child", "field:locked_flag"],
+         ensures=[("no-current-action-returns-the-function-itself", "implies(curact() is None, result is f and pos_unchanged())", ["C06"]),
+                  ("otherwise-reserves-exactly-one-position", "implies(curact() is not None, pos(typed(curact(), 'Action')) == old(pos(typed(curact(), 'Action'))) + 1 and result is not f)", ["C06"]),
+                  ("context-untouched", "CTX == old(CTX)", ["C04"])])
+specfun("pos_unchanged", [], "only_changed('_last_child')")
+
+contract(A + "preserve_context.restore_eliot_context", props=["C06"], types={"args": "tuple", "kwargs": "dict"}, returns="Any",
+         free={"f": "role:UserCode", "called": "Lock", "task_id": "bytes", "U": "str", "L": "seq"},
+         ghost_args={"Action.continue_task#0": {"U": "U", "L": "L"}},
+         call_tokens={"UserCode.__call__#0": "held(called)"},
+         assumes=[("string library axioms, instance for U, L", "codec_facts(U, L)")],
+         requires=[("current-ok", "cur_ok()"),
+                   ("the-id-came-from-serialize_task_id", "all_nat(L) and not str_contains(U, '@') and ascii_ok(U) and task_id == bytes_of(U + '@' + levelstr(L))"),
+                   ("E12-dicts-owned", "True")],
+         modifies=["*"],
+         ensures=[("first-caller-runs-the-function-once-and-passes-its-result-through",
+                   "not old(is_locked(called))", ["C06"]),
+                  ("context-restored", "CTX[me] == old(CTX[me])", ["C04", "C05"])],
+         raises=[{"cls": "TooManyCalls", "when": "old(is_locked(called))", "iff": True,
+                  "ensures": [("every-other-call-raises-TooManyCalls-without-running-the-function", "NTOP[f] == old(NTOP[f]) and LOG == old(LOG)", ["C06"])]},
+                 {"cls": "BaseException", "ensures": [("the-function's-own-exception-passes-through", "not old(is_locked(called)) and CTX[me] == old(CTX[me])", ["C06"])]}])
+specfun("is_locked", ["l"], "typed(l.locked_flag, 'bool')")
+specfun("last_user_call_returned", ["f", "r"], "True")
